@@ -259,6 +259,11 @@ func (m *simMaster) onPacket(seq byte, body []byte) {
 			}
 			m.startDump(&d, rs)
 			m.log.Dumps = append(m.log.Dumps, d)
+		case 0x0e, 0x15: // COM_PING, COM_REGISTER_SLAVE: harmless before a dump request
+			m.log.OtherCmds = append(m.log.OtherCmds, fmt.Sprintf("cmd-0x%02x", cmd))
+			if m.phase != phDumping {
+				m.emit(okPacket(), &rs)
+			}
 		default:
 			m.log.OtherCmds = append(m.log.OtherCmds, fmt.Sprintf("cmd-0x%02x", cmd))
 			if m.phase != phDumping {
